@@ -188,7 +188,23 @@ def type_invariants(tb):
             if hs is not None:
                 out.append(("cmp", "Ge", ("len", sl), ("c", hs)))
             out.append(("cmp", "Eq", ("bin", "Rem", ("len", sl), ("c", 8), "usize"), ("c", 0)))
+        # counter invariants of private iterator structs (invariants.py): self.a <= self.b
+        if info.get("kind") in ("ref", "ptr") and not _IN_INVARIANTS[0]:
+            from . import invariants as INV
+            _IN_INVARIANTS[0] = True
+            try:
+                ci = INV.counter_invariants(F)
+            finally:
+                _IN_INVARIANTS[0] = False
+            path = INV.adt_path_of(F, ty)
+            for (ia, na, ib, nb) in ci.get(path, []):
+                a = ("fld", ("deref", ("arg", i, ty)), ia, na, "usize")
+                b = ("fld", ("deref", ("arg", i, ty)), ib, nb, "usize")
+                out.append(("cmp", "Le", a, b))
     return out
+
+
+_IN_INVARIANTS = [False]
 
 
 def std_post_call_facts(tb, t, bb):
@@ -202,6 +218,12 @@ def std_post_call_facts(tb, t, bb):
     if path in ("core::option::Option::<T>::unwrap", "core::option::Option::<T>::expect"):
         a = tb.operand(t["args"][0], at)
         out.append(("is_some", a))
+        x = a
+        # x.get(i) [.cloned()/.copied()] is Some  =>  i < len(x)   (std contract of slice::get with a usize index)
+        while x[0] == "call" and (str(x[1]).endswith("::cloned") or str(x[1]).endswith("::copied")) and len(x[2]) == 1:
+            x = x[2][0]
+        if x[0] == "call" and cn(x[1]) == "core::slice::get" and "::get::<usize>" in str(x[1]) and len(x[2]) == 2:
+            out.append(("cmp", "Lt", x[2][1], ("len", x[2][0])))
         if a[0] == "checked" and a[1] == "Sub":
             out.append(("cmp", "Ge", a[2][0], a[2][1]))
     if path in ("core::result::Result::<T, E>::unwrap", "core::result::Result::<T, E>::expect"):
@@ -285,7 +307,12 @@ def show(t, depth=0):
     if k == "asptr":
         return "%s.as_ptr()" % show(t[1], d)
     if k == "opq":
-        return "opq" + str(t[1:])[:60]
+        if len(t) > 3 and t[1] == "phi":
+            # position-free: name the merged place, not its definition sites
+            pj = t[3]
+            names = [str(e[2]) for e in pj if isinstance(e, tuple) and e and e[0] == "f"]
+            return "phi(%s)" % (".".join(names) if names else "local")
+        return "opq(%s)" % t[1]
     if k == "or":
         return " OR ".join("[" + " & ".join(show(f, d) for f in c) + "]" for c in t[1])
     if k == "dc":
@@ -367,6 +394,10 @@ def term_type(t):
         return "usize"
     if k == "sizeofval":
         return "usize"
+    if k == "opq" and len(t) > 3 and t[1] == "phi" and isinstance(t[3], tuple) and t[3]:
+        last = t[3][-1]
+        if isinstance(last, tuple) and last and last[0] == "f" and len(last) > 3:
+            return last[3]
     return None
 
 
